@@ -7,7 +7,7 @@ ELAuth(evs, acc) == evs = <<>> \/ \E c \in Chains, a \in 0..L :
 Targets == { <<f2, a2>> \in (0..L) \X (0..L) : f2 <= a2 }
 PrepCase(t) == LET r == PrependResult(msg, t[1], t[2]) IN
                  [f2 |-> t[1], a2 |-> t[2], ok |-> r.ok, first |-> IF Len(r.events) = 0 THEN -1 ELSE r.events[1].idx]
-Case == [msg |-> msg, nmut |-> nmut, base |-> base,
+Case == [msg |-> msg, nmut |-> nmut, base |-> base, genuine |-> Genuine(base),
          auth |-> Authentic(msg), verify |-> VerifyOK(msg),
          elauth |-> ELAuth(msg.events, msg.sacc.payload),
          elverify |-> ELVerifyOK(msg.events, msg.sacc.payload, msg.transported # "no"),
